@@ -166,7 +166,57 @@ def _random_rule_seq(rng, n, arch_ref, layers):
     return seq
 
 
+SWEEP_PER_PLAN = 16  # 4 clients x 4 enumerated sequences
+
+
+def sweep_size():
+    return len(enum_arch()) + len(enum_rule())
+
+
+def n_sweep_plans():
+    return (sweep_size() + SWEEP_PER_PLAN - 1) // SWEEP_PER_PLAN
+
+
+def _setup_ops():
+    return _arch_ops("SA", [("layer", ["LA"]), ("containing_modules", [["pk.m1", "pk.m2"]]),
+                            ("layer", ["LB"]), ("containing_modules", ["pk.m3"])])[0]
+
+
+def generate_sweep(seed, index):
+    """Plans 0 .. n_sweep_plans()-1 walk the complete enumerated space (every sequence of
+    length <= 6 the quantifier names) exactly once, 16 sequences per session, interleaved."""
+    rng = random.Random(f"{seed}:C16:sweep:{index}")
+    arch_enum, rule_enum = enum_arch(), enum_rule()
+    setup = _setup_ops()
+    clients = [[] for _ in range(4)]
+    cover = []
+    for c in range(4):
+        for j in range(4):
+            no = index * SWEEP_PER_PLAN + c * 4 + j
+            if no < len(arch_enum):
+                ops, _ = _arch_ops(f"A{c}_{j}", arch_enum[no])
+                cover.append(f"arch:{no}")
+            elif no - len(arch_enum) < len(rule_enum):
+                ops = _rule_ops(f"R{c}_{j}", rule_enum[no - len(arch_enum)])
+                cover.append(f"rule:{no - len(arch_enum)}")
+            else:
+                continue
+            clients[c].extend(ops)
+    clients[0] = setup + clients[0]
+    schedule = [0] * len(setup)
+    rest = []
+    for c, ops in enumerate(clients):
+        rest.extend([c] * (len(ops) - (len(setup) if c == 0 else 0)))
+    rng.shuffle(rest)
+    schedule += rest
+    return {"prop": "C16", "index": index, "seed": seed, "vocab": VOCAB, "world": {}, "cfgs": {},
+            "clients": clients, "schedule": schedule,
+            "meta": {"client_kinds": ["sweep"], "interleaved": rest != sorted(rest), "cover": cover}}
+
+
 def generate(seed, index):
+    if index < n_sweep_plans():
+        return generate_sweep(seed, index)
     rng = random.Random(f"{seed}:C16:{index}")
     arch_enum = enum_arch()
     rule_enum = enum_rule()
